@@ -104,6 +104,11 @@ def get_emit_kwarg(decorator_list, emit_call, emit_name, name_tpl, name):
                 "function_name": _name,
                 "function_type": "static",
             },
+            "pydantic": {
+                "class_name": _name,
+                "decorator_list": decorator_list,
+                "emit_call": emit_call,
+            },
             "json_schema": {
                 "identifier": _name,
             },
